@@ -183,15 +183,16 @@ def ssv (o : Option (GoMap Nat (List Nat))) : GoMap Nat (List Nat) := o.getD []
 
 def runS (opds : List (Option (GoMap Nat (List Nat)))) (op : String) : String × Option String :=
   match op, opds with
-  | "ss.union", a :: b :: _ => both (showSS (StreamSet.union (ssv a) b))
-  | "ss.inter", a :: b :: _ => both (showSS (StreamSet.intersection (ssv a) b))
-  | "ss.minusstreams", a :: b :: _ => both (showSS (StreamSet.minusStreams (ssv a) b))
+  | "ss.union", a :: b :: _ => (showSS (G.ssUnion (ssv a) b), some (showSS (I.ssUnion (ssv a) b)))
+  | "ss.inter", a :: b :: _ => (showSS (G.ssIntersection (ssv a) b), some (showSS (I.ssIntersection (ssv a) b)))
+  | "ss.minusstreams", a :: b :: _ =>
+    (showSS (G.ssMinusStreams (ssv a) b), some (showSS (I.ssMinusStreams (ssv a) b)))
   | "ss.minus", a :: b :: _ => (showSS (G.ssMinus (ssv a) b), some (showSS (I.ssMinus (ssv a) b)))
   | "ss.subset", a :: b :: _ =>
     (showBool (G.ssIsSubsetByKey (ssv a) b), some (showBool (I.ssIsSubsetByKey (ssv a) b)))
   | "ss.superset", a :: b :: _ =>
     (showBool (G.ssIsSupersetByKey (ssv a) b), some (showBool (I.ssIsSupersetByKey (ssv a) b)))
-  | "ss.clone", a :: _ => both (showSS (StreamSet.clone (ssv a)))
+  | "ss.clone", a :: _ => (showSS (G.ssClone (ssv a)), some (showSS (I.ssClone (ssv a))))
   | "ss.frommap", a :: _ => (showSS (G.streamSetFromMap (ssv a)), some (showSS (I.streamSetFromMap (ssv a))))
   | _, _ => bad
 
